@@ -23,6 +23,7 @@ import Proofs.NoPanic
 import Model.Getters
 import Proofs.MapTo
 import Proofs.GettersExact
+import Proofs.RowTieGetters
 
 namespace Jl.C17
 open Jl Jl.Value Cast CastTyped
@@ -277,5 +278,32 @@ theorem getter_zero_when_nothing_converts (ext : Ext) (name caster : String) (ty
     (hraw : Getters.getOrNil row k = .nil ∨ Unconvertible (Getters.getOrNil row k)) :
     Getters.typedGet ⟨genTables, ext⟩ name row k = some (.ok (Getters.zeroOf ty)) :=
   getter_zero_of_unconvertible ext name caster ty h row k hraw
+
+
+/-! ### The getters and MapTo of the model are the source's (Proofs/RowTieGetters) -/
+
+/-- Each of the sixteen typed getters, as written today, is `GetOrNil`, its caster, and a
+    comma-ok assertion to its Go type (`Getters.table`); `MapTo`'s type switch has the cases of
+    `MapTo.store`. -/
+theorem getters_are_the_source :
+    (∀ row ∈ Getters.table, Gen.rowFacts.getters.lookup row.1 =
+        some (.castCommaOk "GetOrNil" row.2.1 (RowTie.goType row.2.2)))
+    ∧ Gen.rowFacts.getters.length = Getters.table.length
+    ∧ Gen.rowFacts.readers.lookup "GetOrNil" = some (.orNil "Get")
+    ∧ Gen.rowFacts.readers.lookup "Get" = some .mapRaw :=
+  RowTie.getters_as_modelled
+
+/-- `MapTo`, as written today: the ten integer cases go through `ToInt64` / `ToUint64` behind
+    `CanInt` / `CanUint`, the float cases through `ToFloat64` behind `CanFloat`; string, bool and
+    `[]byte` are stored when the field's kind matches; fifteen cases in all, over the fields of the
+    pointed-to struct, each asking the row for `LcFirst(name)`. -/
+theorem mapTo_is_the_source :
+    (∀ t ∈ IntTy.all, (RowTie.mapCases Gen.rowFacts.mapTo).lookup (RowTie.goInt t) =
+      some (if t.signed then .viaCast "ToInt64" "CanInt" "SetInt" "int64"
+            else .viaCast "ToUint64" "CanUint" "SetUint" "uint64"))
+    ∧ (RowTie.mapCases Gen.rowFacts.mapTo).length = 15
+    ∧ (∃ cs, Gen.rowFacts.mapTo = .fields 22 25 "LcFirst" "Get" cs) :=
+  ⟨RowTie.mapTo_as_modelled.1, RowTie.mapTo_as_modelled.2.2.2.2.2.1,
+   RowTie.mapTo_as_modelled.2.2.2.2.2.2⟩
 
 end Jl.C17
